@@ -518,3 +518,45 @@ func callInputOfType(ci ssa.CallInstruction, pred func(types.Type) bool) ssa.Val
 	}
 	return nil
 }
+
+// shareFrom evaluates another property's rule set on the same program and files those of its obligations
+// that match under `rule` of the current property (the clause is a necessary condition of both). Keys keep
+// the construct part of the original key, prefixed by the origin (e.g. "C19.R3:encode-octets:...").
+func shareFrom(c *core.Ctx, prop, rule string, match func(o *core.Obligation) bool, floor int, what string) {
+	fn, ok := Registry[prop]
+	if !ok {
+		c.Anchor(rule, "rule set "+prop)
+		return
+	}
+	// properties share clauses in both directions (C10 <-> C11): a rule set that is being evaluated as a
+	// source does not pull from the property that is pulling from it
+	if sharingActive[prop] {
+		return
+	}
+	sharingActive[c.Prop] = true
+	defer delete(sharingActive, c.Prop)
+	sub, _ := core.NewCtx(c.P, prop, c.Tier, c.Seed, c.OutDir, "")
+	fn(sub)
+	n := 0
+	for _, o := range sub.Obls {
+		if !match(o) {
+			continue
+		}
+		n++
+		key := o.Key
+		if i := len(prop) + 1; len(key) > i && key[:i] == prop+"/" {
+			key = prop + "." + key[i:]
+		}
+		// "R3/construct" -> "R3:construct"
+		for j := 0; j < len(key); j++ {
+			if key[j] == '/' {
+				key = key[:j] + ":" + key[j+1:]
+				break
+			}
+		}
+		c.Check(rule, key, token.NoPos, o.OK, o.Desc+" ("+prop+" "+o.Rule+" at "+o.Pos+")")
+	}
+	c.Floor(rule, n, floor, what)
+}
+
+var sharingActive = map[string]bool{}
